@@ -165,7 +165,10 @@ where
     }
 
     pub(crate) fn contains_key(&self, key: &Key) -> bool {
-        self.map.contains_key(key)
+        // Expired entries are only purged on the next insertion; do not report them.
+        self.map
+            .get(key)
+            .is_some_and(|element| element.expires > Instant::now())
     }
 }
 
